@@ -10,10 +10,10 @@ use crate::{
         EcallCheck, GarbageInputValueCheck, InstructionInTextCheck, LostCalleeSavedRegisterCheck,
         OverlappingFunctionCheck, SaveToZeroCheck, StackCheckPass,
     },
-    parser::ParserNode,
+    parser::{InstructionProperties, ParserNode},
 };
 
-use super::{CfgError, DiagnosticManager, GenerationPass, LintPass};
+use super::{CfgError, DiagnosticLocation, DiagnosticManager, GenerationPass, LintPass};
 use std::collections::HashSet;
 
 #[derive(Default)]
@@ -88,6 +88,14 @@ impl Manager {
         CalleeSavedGarbageReadCheck::run(cfg, errors);
         LostCalleeSavedRegisterCheck::run(cfg, errors);
         OverlappingFunctionCheck::run(cfg, errors);
+        let unreachable = cfg
+            .iter()
+            .filter(|node| {
+                node.is_instruction() && !node.is_any_entry() && node.prevs().is_empty()
+            })
+            .map(|node| (node.file(), node.range()))
+            .collect::<Vec<_>>();
+        errors.drop_secondary_on(&unreachable);
         errors.dedup();
     }
     pub fn run(cfg: Vec<ParserNode>) -> Result<DiagnosticManager, Box<CfgError>> {
